@@ -3,7 +3,8 @@
 
   The objects: `ALV.Gen.Windows` is REGENERATED from the repo's formula table and code templates
   on every check (translator T2); `ALV.C14.call` is the hand-written model of the registry built by
-  `_generate_window_strategies` applied to those generated definitions; `ALV.C14.sample`,
+  `_generate_window_strategies` applied to those generated definitions — proved in Part 2b to be the run of
+  `ALV.Gen.C14.generateWindowStrategies`, the loop REGENERATED from the source text (translator T2b) —; `ALV.C14.sample`,
   `periodic`, `symmetric`, `resolve`, `hopSum`, `colaConst` are the hand-written specification.
 
   Part 1 holds for every number class (`Float` included: these are statements about the very terms
